@@ -1,5 +1,6 @@
 import PPProofs.Props.C06
 import PPProofs.Props.C06Term
+import PPProofs.Props.C06Rec
 #print axioms PP.Parse.no_indexerror_escapes
 #print axioms PP.Parse.parse_match_forward
 #print axioms PP.Parse.parse_locations_inside
@@ -23,3 +24,8 @@ import PPProofs.Props.C06Term
 #print axioms PP.Parse.acyclic_terminates_checked
 #print axioms PP.Parse.entry_points_terminate_checked
 #print axioms PP.Parse.acyclic_terminates_depth
+#print axioms PP.Parse.entry_points_terminate_depth
+#print axioms PP.Parse.recursive_terminates_partial
+#print axioms PP.Parse.recursive_terminates_checked_partial
+#print axioms PP.Parse.recursive_terminates_depth_partial
+#print axioms PP.Parse.entry_points_terminate_rec_partial
